@@ -2,7 +2,8 @@ SPECIFICATION WGSpec
 CONSTANTS
   MaxTicks = 4
   ROSChoices = {TRUE, FALSE}
-  RefOutcomes = {"nil", "err"}
+  RefOutcomes = {"nil", "err", "ctxerr", "wctxerr", "cause"}
+  CtxKinds = {"ctxerr", "wctxerr", "cause"}
   CloseLate = FALSE
   ExtraRefreshes = FALSE
   MaxExtra = 2
